@@ -149,6 +149,10 @@ def content(kind, cfg, cc):
         big = np.zeros((nch, Z, Y, 2 * X), dtype=arr.dtype)
         big[..., ::2] = arr
         arr = big[..., ::2]
+    elif kind == "ramp" and cc[0] == 0:
+        # chunks starting at x = 0 are handed over Fortran-ordered (what a
+        # transposed / moveaxis'd source array looks like)
+        arr = np.asfortranarray(arr)
     return arr, want
 
 
@@ -221,6 +225,23 @@ def run_history(cfg, history, col, check=True):
                     "written", repr(exc)[:200])
                 return None
             model[(si, tuple(cc))] = want
+            # a position that was just used on one scale is not thereby
+            # valid on the other scale of the dataset
+            if cfg["two_scales"]:
+                other = 1 - si
+                osz, ocs = (SIZE1, CS1) if other == 1 else (SIZE0, CS0)
+                if not on_grid(tuple(cc), osz, ocs):
+                    try:
+                        ok_there = bool(pio.validate_chunk_coords(
+                            "s%d" % other, tuple(cc)))
+                    except Exception:
+                        ok_there = False
+                    if ok_there:
+                        col.violation(
+                            "C03/grid/off-grid-position-accepted/after-use-"
+                            "on-another-scale", dict(case, probe=[
+                                other, list(cc)]), False, True)
+                        return None
         handles = []
         if cfg["acc"]["cls"] == "file":
             handles.append(("same", pio))
